@@ -67,17 +67,52 @@ func reuseKinds() []reuseKind {
 		"unsupported": make(chan int),
 	}
 	failWriter := func() io.Writer { return &faultyWriter{failAt: 6, permanent: true} }
+	// marshalers: recursion support on (marker names restart with every document), a depth limit that a
+	// leaked depth count would exhaust, documents written alternately to a bytes.Buffer (MarshalToDocument)
+	// and to a sink that is only an io.Writer, and an earlier document kept while a later one is made
+	mcfg := func() *configuration.Configuration {
+		c := cfg()
+		c.Iterator.RecursionSupport = true
+		c.Rules.MaxContainerDepth = 3
+		return c
+	}
+	shared := &c16V{A: 5}
+	mvals := map[string]interface{}{
+		"valid":       vals["valid"],
+		"valid2":      []interface{}{shared, map[string]interface{}{"p": []interface{}{shared, []int8{1}}}, "second"}, // one key per map: output independent of map order
+		"fail-mid":    vals["fail-mid"],
+		"unsupported": vals["unsupported"],
+	}
 	marsh := func(mk func(*configuration.Configuration) ce.Marshaler) reuseKind {
-		return reuseKind{mk: func() interface{} { return mk(cfg()) }, run: func(inst interface{}, op string) reuseOut {
+		return reuseKind{mk: func() interface{} { return mk(mcfg()) }, run: func(inst interface{}, op string) reuseOut {
 			m := inst.(ce.Marshaler)
 			switch op {
 			case "io-fault":
-				return guard(func() (string, error) { return "", m.Marshal(vals["valid"], failWriter()) })
+				return guard(func() (string, error) { return "", m.Marshal(mvals["valid"], failWriter()) })
 			case "dangling-ref":
 				op = "valid2"
+			case "valid":
+				return guard(func() (string, error) {
+					var buf bytes.Buffer
+					err := m.Marshal(mvals["valid"], plainWriter{&buf})
+					return hex.EncodeToString(buf.Bytes()), err
+				})
 			}
-			v := vals[op]
-			return guard(func() (string, error) { b, err := m.MarshalToDocument(v); return hex.EncodeToString(b), err })
+			v := mvals[op]
+			return guard(func() (string, error) {
+				b, err := m.MarshalToDocument(v)
+				kept := append([]byte{}, b...)
+				if op == "valid2" && err == nil {
+					// the document handed out stays what it was while the marshaler makes another one
+					if _, err2 := m.MarshalToDocument(mvals["valid"]); err2 != nil {
+						return "second document of the operation failed", err2
+					}
+					if !bytes.Equal(kept, b) {
+						return "THE RETURNED DOCUMENT CHANGED: " + hex.EncodeToString(kept) + " -> " + hex.EncodeToString(b), nil
+					}
+				}
+				return hex.EncodeToString(kept), err
+			})
 		}}
 	}
 	cbeDocs := map[string][]byte{}
@@ -247,6 +282,11 @@ func checkC16(c *Check) {
 				}
 				got := k.run(inst, op)
 				want := fresh[k.name+"|"+op]
+				if strings.HasPrefix(got.Out, "THE RETURNED DOCUMENT CHANGED") {
+					c.Violation(fmt.Sprintf("%s: after %v the operation %q: a document returned by MarshalToDocument was overwritten by the next call on the same marshaler: %s", k.name, h[:i], op, got.Out),
+						map[string]interface{}{"kind": "reuse", "instance": k.name, "history": h[:i], "op": op, "got": got.String()})
+					break
+				}
 				if got != want {
 					if got.Hung {
 						hangs++
